@@ -274,8 +274,9 @@ def run(ctx, replay=None):
     ctx.sample({'aconf-doc': spec_ops[min(11, len(spec_ops) - 1)], 'impl': il[min(11, len(il) - 1)] if il else ''})
     # ---- blanks between the last argument of a section tag and its '>' that the one-blank-after-a-bare-word case above does not cover:
     # after a quoted word, or two blanks.  The blanks belong to no argument (option lines are trimmed), so the expectation is the
-    # specification's answer for the tag as generated.  On the pinned tree the parser delivers an extra empty argument in these two cases
-    # (known finding): recognised as exactly that by comparing with the specification's answer for the tag with an explicit "" argument.
+    # specification's answer for the tag as generated.  The pinned tree delivered an extra empty argument in these two cases (repaired in
+    # /repo e73b184; listed as `fixed`, which suppresses nothing): that form of the defect is recognised by comparing with the specification's
+    # answer for the tag with an explicit "" argument and named in the signature.
     W = lambda *ws: [(b'' if k == 0 else b' ', st, t) for k, (st, t) in enumerate(ws)]
     S_ = lambda words, body: ('S', b'', b'', words, body, b'', words[0][2], b'')
     gt = [  # (document as generated, the same with an explicit empty last argument, (from, to) replacement in the rendered text)
